@@ -621,3 +621,188 @@ Section Client.
     - exists st. repeat split; assumption.
   Qed.
 End Client.
+
+(* ---------------- the fields of the parsed message, spelled out ---------------- *)
+
+Section View.
+  Variables (A : Type) (same : A -> A -> bool) (f : eff -> ceff A).
+  Definition keep (e : eff) : list (ceff A) := match f e with CNop => [] | x => [x] end.
+  Lemma capply_view : forall es l, capply A same l (map f es) = capply A same l (flat_map keep es).
+  Proof.
+    induction es as [|e es IH]; intros l; [reflexivity|]. cbn [map flat_map]. unfold capply in *. cbn [fold_left].
+    rewrite fold_left_app, IH. f_equal. unfold keep. destruct (f e); reflexivity.
+  Qed.
+End View.
+
+Section Fields.
+  Variable mi : N.
+  Variables res host body : bytes.
+  Variables qs cs hs : list (bytes * bytes).
+  Let m := parsed_head mi res qs (client_lines cs hs host body).
+  Let effs := request_line_effs mi res qs ++ flat_map snd (client_lines cs hs host body).
+
+  Definition add_query (p : bytes * bytes) := AddQuery (fst p) (snd p).
+  Definition add_cookie (p : bytes * bytes) := AddCookie (fst p) (snd p).
+
+  Lemma keep_map_same {A} (f : eff -> ceff A) (g : bytes * bytes -> eff) (h : bytes * bytes -> A) l :
+    (forall p, f (g p) = CIns (h p)) -> flat_map (keep A f) (map g l) = map (fun p => CIns (h p)) l.
+  Proof. intros H. induction l as [|p l IH]; [reflexivity|]. cbn [map flat_map]. unfold keep at 1. rewrite H, IH. reflexivity. Qed.
+
+  Lemma keep_map_none {A} (f : eff -> ceff A) (g : bytes * bytes -> eff) l :
+    (forall p, f (g p) = CNop) -> flat_map (keep A f) (map g l) = [].
+  Proof. intros H. induction l as [|p l IH]; [reflexivity|]. cbn [map flat_map]. unfold keep at 1. rewrite H, IH. reflexivity. Qed.
+
+  Lemma keep_plain_none {A} (f : eff -> ceff A) l : (forall k v, f (AddRaw k v) = CNop) ->
+    flat_map (keep A f) (flat_map snd (map plain_line l)) = [].
+  Proof. intros H. induction l as [|p l IH]; [reflexivity|]. cbn [map flat_map plain_line snd app]. unfold keep at 1. rewrite H, IH. reflexivity. Qed.
+
+  Lemma keep_plain_raw l :
+    flat_map (keep _ v_raw) (flat_map snd (map plain_line l)) = map (fun h : bytes * bytes => CIns h) l.
+  Proof. induction l as [|[k v] l IH]; [reflexivity|]. cbn [map flat_map plain_line snd app fst]. unfold keep at 1. cbn [v_raw]. rewrite IH. reflexivity. Qed.
+
+  Definition cl_raw : list (bytes * bytes) :=
+    match body with [] => [] | _ => [(list_of_string "Content-Length", print_dec (N.of_nat (length body)))] end.
+
+  Lemma effs_split : effs =
+    ([SetMethod mi; SetResource res] ++ map add_query qs ++ [SetVersion 1%N])
+    ++ (ClearCookies :: map add_cookie cs ++ [AddRaw (list_of_string "Cookie") (cookie_text cs)])
+    ++ flat_map snd (map plain_line hs)
+    ++ [AddTyped (idx "User-Agent") ua; AddRaw (list_of_string "User-Agent") ua; AddTyped (idx "Host") host; AddRaw (list_of_string "Host") host]
+    ++ (match body with [] => [] | _ => [AddTyped (idx "Content-Length") (print_dec (N.of_nat (length body)));
+                                         AddRaw (list_of_string "Content-Length") (print_dec (N.of_nat (length body)))] end).
+  Proof.
+    unfold effs, client_lines, request_line_effs. cbn [flat_map cookie_line snd]. rewrite !flat_map_app.
+    cbn [flat_map typed_line snd app]. rewrite <- !app_assoc. cbn [app].
+    destruct body; cbn [flat_map typed_line snd app]; reflexivity.
+  Qed.
+
+  Ltac view_tac :=
+    rewrite !flat_map_app; cbn [flat_map app].
+
+  Lemma field_query : m_query m = capply _ same_key [] (map (fun p : bytes * bytes => CIns p) qs).
+  Proof.
+    unfold m, parsed_head. fold effs.
+    rewrite (apply_proj _ m_query (fun x e => capply1 _ same_key x (v_query e))) by reflexivity.
+    rewrite <- (fold_left_map (capply1 _ same_key) v_query). fold (capply _ same_key (m_query msg_init) (map v_query effs)).
+    rewrite capply_view, effs_split. rewrite !flat_map_app.
+    rewrite (keep_map_same v_query add_query (fun p => p)) by (intros [k v]; reflexivity).
+    cbn [flat_map app]. rewrite !flat_map_app.
+    rewrite (keep_map_none v_query add_cookie) by reflexivity.
+    rewrite (keep_plain_none v_query) by reflexivity.
+    destruct body; cbn [flat_map keep v_query app]; rewrite ?app_nil_r; reflexivity.
+  Qed.
+
+  Lemma field_cookies : m_cookies m = capply _ same_pair [] (map (fun p : bytes * bytes => CIns p) cs).
+  Proof.
+    unfold m, parsed_head. fold effs.
+    rewrite (apply_proj _ m_cookies (fun x e => capply1 _ same_pair x (v_cookies e))) by reflexivity.
+    rewrite <- (fold_left_map (capply1 _ same_pair) v_cookies). fold (capply _ same_pair (m_cookies msg_init) (map v_cookies effs)).
+    rewrite capply_view, effs_split. rewrite !flat_map_app.
+    rewrite (keep_map_none v_cookies add_query) by reflexivity.
+    cbn [flat_map app]. rewrite !flat_map_app.
+    rewrite (keep_map_same v_cookies add_cookie (fun p => p)) by (intros [k v]; reflexivity).
+    rewrite (keep_plain_none v_cookies) by reflexivity.
+    destruct body; cbn [flat_map keep v_cookies app]; rewrite ?app_nil_r; unfold capply; cbn [fold_left capply1 msg_init m_cookies]; reflexivity.
+  Qed.
+
+  Lemma field_raw : m_raw m = capply _ same_ci []
+    (map (fun h : bytes * bytes => CIns h)
+         ((list_of_string "Cookie", cookie_text cs) :: hs
+          ++ [(list_of_string "User-Agent", ua); (list_of_string "Host", host)] ++ cl_raw)).
+  Proof.
+    unfold m, parsed_head. fold effs.
+    rewrite (apply_proj _ m_raw (fun x e => capply1 _ same_ci x (v_raw e))) by reflexivity.
+    rewrite <- (fold_left_map (capply1 _ same_ci) v_raw). fold (capply _ same_ci (m_raw msg_init) (map v_raw effs)).
+    rewrite capply_view, effs_split. rewrite !flat_map_app.
+    rewrite (keep_map_none v_raw add_query) by reflexivity.
+    cbn [flat_map app]. rewrite !flat_map_app.
+    rewrite (keep_map_none v_raw add_cookie) by reflexivity.
+    rewrite keep_plain_raw. unfold cl_raw.
+    destruct body; cbn [flat_map keep v_raw app map msg_init m_raw]; rewrite ?app_nil_r; rewrite !map_app; reflexivity.
+  Qed.
+
+  Lemma fold_nop {V} (view : eff -> reff V) : forall (l : list eff) x, Forall (fun e => view e = RNop) l ->
+    fold_left (fun x e => rapply1 _ x (view e)) l x = x.
+  Proof. induction l as [|e l IH]; intros x H; [reflexivity|]. cbn [fold_left]. rewrite (Forall_inv H). apply IH. exact (Forall_inv_tail H). Qed.
+
+  Lemma nop_map {V} (view : eff -> reff V) (g : bytes * bytes -> eff) (l : list (bytes * bytes)) :
+    (forall p, view (g p) = RNop) -> Forall (fun e => view e = RNop) (map g l).
+  Proof. intros H. induction l as [|p l IH]; [constructor|]. constructor; [apply H|exact IH]. Qed.
+
+  Lemma nop_plain {V} (view : eff -> reff V) (l : list (bytes * bytes)) :
+    (forall k v, view (AddRaw k v) = RNop) -> Forall (fun e => view e = RNop) (flat_map snd (map plain_line l)).
+  Proof. intros H. induction l as [|p l IH]; [constructor|]. cbn [map flat_map plain_line snd app]. constructor; [apply H|exact IH]. Qed.
+
+  Lemma scalar_field {V} (proj : msg -> V) (view : eff -> reff V) :
+    (forall x e, proj (apply1 x e) = rapply1 _ (proj x) (view e)) ->
+    (forall p, view (add_query p) = RNop) -> (forall p, view (add_cookie p) = RNop) ->
+    (forall k v, view (AddRaw k v) = RNop) -> (forall i v, view (AddTyped i v) = RNop) -> view ClearCookies = RNop ->
+    proj m = fold_left (fun x e => rapply1 _ x (view e)) [SetMethod mi; SetResource res; SetVersion 1%N] (proj msg_init).
+  Proof.
+    intros Hp Hq Hc Hr Ht Hk. unfold m, parsed_head. fold effs.
+    rewrite (apply_proj _ proj (fun x e => rapply1 _ x (view e)) Hp). rewrite effs_split.
+    rewrite !fold_left_app. cbn [fold_left]. rewrite !fold_left_app. cbn [fold_left].
+    rewrite (fold_nop view (match body with [] => [] | _ => _ end)) by (destruct body; repeat constructor; auto).
+    rewrite ?Ht, ?Hr, ?Hk. cbn [rapply1].
+    rewrite (fold_nop view (flat_map snd (map plain_line hs))) by (apply nop_plain; exact Hr).
+    rewrite ?Ht, ?Hr, ?Hk. cbn [rapply1].
+    rewrite (fold_nop view (map add_cookie cs)) by (apply nop_map; exact Hc).
+    rewrite ?Ht, ?Hr, ?Hk. cbn [rapply1].
+    rewrite (fold_nop view (map add_query qs)) by (apply nop_map; exact Hq).
+    reflexivity.
+  Qed.
+
+  Lemma field_scalars : m_method m = mi /\ m_resource m = res /\ m_version m = 1%N /\ m_body m = [].
+  Proof.
+    repeat split.
+    - rewrite (scalar_field m_method v_method); try reflexivity.
+    - rewrite (scalar_field m_resource v_resource); try reflexivity.
+    - rewrite (scalar_field m_version v_version); try reflexivity.
+    - unfold m, parsed_head. rewrite apply_body. reflexivity.
+  Qed.
+End Fields.
+
+(* the statement of C02 for the client -> server direction, field by field; first-wins collections:
+   [capply same [] (map CIns l)] is [l] itself when the keys of l are pairwise different *)
+Theorem client_request_fields typed_other set_cookie mt mi host path qs cs hs body :
+  wf_method mt mi -> wf_resource (slash path ++ path) -> Forall wf_pair qs ->
+  Forall wf_cookie cs -> Forall (plain_header) hs -> wf_value host ->
+  typed_ok typed_other "User-Agent" ua -> typed_ok typed_other "Host" host -> (N.of_nat (length body) <= 18446744073709551615)%N ->
+  exists st,
+    whole typed_other set_cookie KRequest (write_request mt host path (query_text qs) cs hs body) = (PDone, st)
+    /\ p_cur st = length (write_request mt host path (query_text qs) cs hs body)
+    /\ m_method (p_msg st) = mi
+    /\ m_resource (p_msg st) = slash path ++ path
+    /\ m_version (p_msg st) = 1%N
+    /\ m_query (p_msg st) = capply _ same_key [] (map (fun p : bytes * bytes => CIns p) qs)
+    /\ m_cookies (p_msg st) = capply _ same_pair [] (map (fun p : bytes * bytes => CIns p) cs)
+    /\ m_raw (p_msg st) = capply _ same_ci []
+         (map (fun h : bytes * bytes => CIns h)
+              ((list_of_string "Cookie", cookie_text cs) :: hs
+               ++ [(list_of_string "User-Agent", ua); (list_of_string "Host", host)] ++ cl_raw body))
+    /\ m_body (p_msg st) = body.
+Proof.
+  intros Hm Hr Hq Hcs Hhs Hhost Hua Hh Hlen.
+  destruct (client_request_roundtrip typed_other set_cookie mt mi host path qs cs hs body Hm Hr Hq Hcs Hhs Hhost Hua Hh Hlen) as [st [H1 [H2 H3]]].
+  exists st. split; [exact H1|]. split; [exact H2|]. rewrite H3. unfold set_body. cbn [m_method m_resource m_version m_query m_cookies m_raw m_body].
+  destruct (field_scalars mi (slash path ++ path) host body qs cs hs) as [F1 [F2 [F3 _]]].
+  repeat split; try assumption.
+  - apply field_query.
+  - apply field_cookies.
+  - apply field_raw.
+Qed.
+
+(* when the keys are pairwise different the first-wins collection is the list itself *)
+Lemma capply_distinct {A} (same : A -> A -> bool) : forall (l acc : list A),
+  (forall a b, In a (acc ++ l) -> In b (acc ++ l) -> same a b = true -> a = b) -> NoDup (acc ++ l) ->
+  capply A same acc (map (fun a => CIns a) l) = acc ++ l.
+Proof.
+  induction l as [|x l IH]; intros acc Hs Hn; [rewrite app_nil_r; reflexivity|].
+  cbn [map]. unfold capply. cbn [fold_left capply1]. fold (capply A same).
+  assert (Hm : cmem A same x acc = false).
+  { unfold cmem. apply not_true_is_false. intros Hex. apply existsb_exists in Hex. destruct Hex as [y [Hy Hxy]].
+    assert (x = y) by (apply Hs; [apply in_or_app; right; left; reflexivity|apply in_or_app; left; exact Hy|exact Hxy]).
+    subst y. apply NoDup_remove_2 in Hn. apply Hn. apply in_or_app. left. exact Hy. }
+  rewrite Hm. replace (acc ++ x :: l) with ((acc ++ [x]) ++ l) in * by (rewrite <- app_assoc; reflexivity).
+  apply IH; assumption.
+Qed.
